@@ -115,8 +115,11 @@ def check_session(inst, side, pw, ids, x, acc, all_elements, clone):
         t = copy.copy(t0) if clone else inst.new(side, pw, ids, x)
         if not clone:
             t.start()
-        twin[d] = T.observe(t.finish, d)
-        acc.n(transitions=1)
+        twin[d] = (T.observe(t.finish, d), after_finish(t))
+        acc.n(transitions=2)
+        if not twin[d][1][1]:
+            acc.violation("C08/%s/%s/serialize-mutates" % (F, side), {"what": "serialize() after finish(%s) changes the instance" % kind,
+                          "replay": dict(desc, word="", delivered=d), "expected": "unchanged __dict__", "observed": "changed"})
     for word in WORDS:
         acc.n(states=1)
         if not clone:
@@ -127,22 +130,30 @@ def check_session(inst, side, pw, ids, x, acc, all_elements, clone):
                 if m != m0:
                     acc.violation("C08/%s/%s/start-not-deterministic" % (F, side), {"what": "same constructor arguments and entropy give different messages",
                                   "replay": dict(desc, word=""), "expected": m0, "observed": m})
-                got = T.observe(cur.finish, d)
-                acc.n(transitions=1, traces=1)
+                got = (T.observe(cur.finish, d), after_finish(cur))
+                acc.n(transitions=2, traces=1)
                 judge(F, side, word, kind, d, twin[d], got, desc, acc)
         else:
             cur, m = run_word(inst, side, pw, ids, x, word, acc, desc, blob0)
             if cur is None:
                 continue
             for kind, d in menu:
-                got = T.observe(copy.copy(cur).finish, d)
-                acc.n(transitions=1, traces=1)
+                c2 = copy.copy(cur)
+                got = (T.observe(c2.finish, d), after_finish(c2))
+                acc.n(transitions=2, traces=1)
                 judge(F, side, word, kind, d, twin[d], got, desc, acc)
+
+
+def after_finish(t):
+    """serialize() on an instance whose finish() was entered: outcome + whether it changed the instance"""
+    before = T.canon_instance(t)
+    b = T.observe(t.serialize)
+    return (b, T.canon_instance(t) == before)
 
 
 def judge(F, side, word, kind, d, want, got, desc, acc):
     if "r" in word:
-        acc.seen((F, side, word, kind, got[0] if got[0] == "ok" else got[1]))
+        acc.seen((F, side, word, kind, got[0][0] if got[0][0] == "ok" else got[0][1]))
     if got != want:
         acc.violation("C08/%s/%s/%s/%s" % (F, side, "restored" if "r" in word else "serialized", kind),
                       {"what": "after the word %r (s=serialize, r=crash+restore) finish(%s) behaves differently from the never-crashed twin" % (word, kind),
@@ -254,4 +265,4 @@ def replay(rec):
         return {"violations_on_the_way": sorted(acc.viol)}
     if cur is None:
         return "word could not be executed"
-    return T.observe(cur.finish, r["delivered"])
+    return (T.observe(cur.finish, r["delivered"]), after_finish(cur))
